@@ -1242,17 +1242,14 @@ func (gen *Generator) GenerateSyntaxQuote(args []Sexp) error {
 	// in them too.
 	switch aaa := arg.(type) {
 	case *SexpArray:
-		gen.generateSyntaxQuoteArray(aaa)
-		return nil
+		return gen.generateSyntaxQuoteArray(aaa)
 	case *SexpPair:
 		if !IsList(arg) {
 			break
 		}
-		gen.generateSyntaxQuoteList(arg)
-		return nil
+		return gen.generateSyntaxQuoteList(arg)
 	case *SexpHash:
-		gen.generateSyntaxQuoteHash(arg)
-		return nil
+		return gen.generateSyntaxQuoteHash(arg)
 	}
 	gen.AddInstruction(PushInstr{arg})
 	return nil
@@ -1290,10 +1287,11 @@ func (gen *Generator) generateSyntaxQuoteList(arg Sexp) error {
 		if issymbol {
 			if sym.name == "unquote" {
 				//VPrintf("detected unquote with quotebody[1]='%#v'   arg='%#v'\n", quotebody[1], arg)
-				gen.Generate(quotebody[1])
-				return nil
+				return gen.Generate(quotebody[1])
 			} else if sym.name == "unquote-splicing" {
-				gen.Generate(quotebody[1])
+				if err := gen.Generate(quotebody[1]); err != nil {
+					return err
+				}
 				gen.AddInstruction(ExplodeInstr(0))
 				return nil
 			}
@@ -1303,7 +1301,9 @@ func (gen *Generator) generateSyntaxQuoteList(arg Sexp) error {
 	gen.AddInstruction(PushInstr{SexpMarker})
 
 	for _, expr := range quotebody {
-		gen.GenerateSyntaxQuote([]Sexp{expr})
+		if err := gen.GenerateSyntaxQuote([]Sexp{expr}); err != nil {
+			return err
+		}
 	}
 
 	gen.AddInstruction(SquashInstr(0))
@@ -1326,7 +1326,9 @@ func (gen *Generator) generateSyntaxQuoteArray(arg Sexp) error {
 	gen.AddInstruction(PushInstr{SexpMarker})
 	for _, expr := range arr.Val {
 		gen.AddInstruction(PushInstr{SexpMarker})
-		gen.GenerateSyntaxQuote([]Sexp{expr})
+		if err := gen.GenerateSyntaxQuote([]Sexp{expr}); err != nil {
+			return err
+		}
 		gen.AddInstruction(SquashInstr(0))
 		gen.AddInstruction(ExplodeInstr(0))
 	}
@@ -1356,12 +1358,16 @@ func (gen *Generator) generateSyntaxQuoteHash(arg Sexp) error {
 		}
 		// value first, since value comes second on rebuild
 		gen.AddInstruction(PushInstr{SexpMarker})
-		gen.GenerateSyntaxQuote([]Sexp{val})
+		if err := gen.GenerateSyntaxQuote([]Sexp{val}); err != nil {
+			return err
+		}
 		gen.AddInstruction(SquashInstr(0))
 		gen.AddInstruction(ExplodeInstr(0))
 
 		gen.AddInstruction(PushInstr{SexpMarker})
-		gen.GenerateSyntaxQuote([]Sexp{key})
+		if err := gen.GenerateSyntaxQuote([]Sexp{key}); err != nil {
+			return err
+		}
 		gen.AddInstruction(SquashInstr(0))
 		gen.AddInstruction(ExplodeInstr(0))
 	}
